@@ -141,7 +141,7 @@ def shrink(case, bucket):
 
 def plan(tier, seed, scale):
     K = 16
-    total = int((10000 if tier == "quick" else 200000) * scale)
+    total = int((10000 if tier == "quick" else 70000) * scale)
     return [{"name": "rand-%d" % i, "kind": "rand", "n": max(total // K, 10), "shard": i,
              "depth": 4 if tier == "quick" else 5} for i in range(K)]
 
